@@ -5,7 +5,7 @@ Differential oracle: the independent encoder/decoder in rtmon.ashref against
   * parse_frame(reference bytes)                       (decode direction, exact inverse)
   * bytes the *running* host hands to transport.write  (send_data / ACK / NAK / send_reset)
   * 1- and 2-bit corruptions (before stuffing): parse_frame must reject, and end to end
-    data_received() must hand nothing up and answer with one CANCEL-prefixed NAK.
+    data_received() must hand nothing up and answer with one NAK.
 """
 from __future__ import annotations
 
@@ -288,8 +288,8 @@ def check_flips(acc: Acc, ash, label, raw: bytes, e2e_every: int = 1):
             proto, up, tr, log = new_protocol()
             proto.data_received(R.stuff(bad) + bytes([R.FLAG]))
             dec = decode_writes(log)
-            if dec != [("tx", "NAK", 0, True)]:
-                acc.violation("C03/corruption/e2e", f"corrupted frame {bad.hex()} produced {dec!r} instead of one CANCEL-prefixed NAK(0) and no upward event", case)
+            if [e[:3] for e in dec] != [("tx", "NAK", 0)]:
+                acc.violation("C03/corruption/e2e", f"corrupted frame {bad.hex()} produced {dec!r} instead of one NAK(0) and no upward event", case)
             else:
                 acc.hit("flip_e2e_nak")
     acc.nontrivial(("flip", label, raw))
